@@ -9,7 +9,9 @@ use std::io::{BufRead, Write};
 fn main() {
     let layer = std::env::args().nth(1).unwrap_or_default();
     // panics inside cases are caught and classified; keep stderr quiet
-    std::panic::set_hook(Box::new(|_| {}));
+    if std::env::var("VH_HOOK").is_err() {
+        std::panic::set_hook(Box::new(|_| {}));
+    }
     let stdin = std::io::stdin();
     let stdout = std::io::stdout();
     let mut out = stdout.lock();
